@@ -57,6 +57,9 @@ def cases(tier, seed, phase):
                     r = gen_addr(rng, utf8_ok)
                     if r not in rcpts:
                         rcpts.append(r)
+                if rng.random() < 0.15:
+                    # the same recipient listed twice (an envelope is a list, not a set): both entries must arrive, in place
+                    rcpts.insert(rng.randrange(len(rcpts) + 1), rng.choice(rcpts))
                 wf = gen_wf(rng)
                 h, blank, body = bytes.fromhex(wf['h']), bytes.fromhex(wf['blank']), bytes.fromhex(wf['body'])
                 if not (cfg['eightbit'] or transport == 'http'):
@@ -230,13 +233,23 @@ def run_hop_smtp(case, model):
         return c
     relay.add_client = add_client
     results = []
+    import slimta.smtp.client as sclient
+    real_send_data = sclient.Client.send_data
+    handed = []          # the parts the relay client handed to Client.send_data, one entry per message that got that far
+
+    def send_data(self, *data):
+        handed.append([bytes(d) for d in data])
+        return real_send_data(self, *data)
+    sclient.Client.send_data = send_data
     try:
         for m in case['msgs']:
             results.append(attempt(relay, make_env(m)))
     finally:
+        sclient.Client.send_data = real_send_data
         esmtp.Server = RealServer
         for c in list(relay.pool):
             c.kill(block=False)
+    q.handed = handed
     return q, taps, servers, clients, results
 
 
@@ -428,6 +441,28 @@ def run_hop(case, model):
                 want_lines.append(bytes.fromhex(model.ask('wire rcpt %s' % (r.encode(enc).hex() or '-'))) + b'\r\n')
         if lines != want_lines and mismatch is None and not hits:
             mismatch = {'op': 'wire mail/rcpt', 'impl': [l.decode('latin-1') for l in lines[:4]], 'model': [l.decode('latin-1') for l in want_lines[:4]]}
+        # the whole transaction on the wire (MAIL .. end-of-data line) vs the model's hopBytes, the byte string
+        # hop_delivers / session_delivers are stated about; parts = what the relay client handed to Client.send_data
+        enc_msgs = []
+        for s in sent:
+            enc = 'utf-8' if cfg['smtputf8'] and not cfg['ehlo500'] else 'ascii'
+            try:
+                enc_msgs.append((s['sender'].encode(enc), [r.encode(enc) for r in s['rcpts']]))
+            except UnicodeError:
+                pass
+        if len(enc_msgs) == len(q.handed) and mismatch is None and not hits:
+            pos = 0
+            for (snd, rcs), parts in zip(enc_msgs, q.handed):
+                p0 = wire.find(b'MAIL FROM:', pos)
+                hop = bytes.fromhex(model.ask('wire hop %s %s %s' % (snd.hex() or '-', ','.join(r.hex() or '_' for r in rcs) or '-',
+                                                                   ','.join(x.hex() or '_' for x in parts) or '-')).replace('-', ''))
+                got_hop = wire[p0:p0 + len(hop)] if p0 >= 0 else None
+                if got_hop != hop:
+                    mismatch = {'op': 'wire hop', 'impl': repr(got_hop[:300] if got_hop else got_hop), 'model': repr(hop[:300])}
+                    break
+                pos = p0 + len(hop)
+            else:
+                case['_hopcmp'] = len(enc_msgs)
         # what the model's server makes of those lines vs what the real server handed to the queue
         real_addrs = []
         for g in q.got:
@@ -456,10 +491,14 @@ def run_hop(case, model):
                              'data': g.get('data', b'')})
         compare(received, results)
     tags = ['hop-' + tr, 'queue=' + cfg['queue'], 'msgs=%d' % len(case['msgs']), 'pipelining' if cfg['pipelining'] else 'no-pipelining']
+    if case.get('_hopcmp'):
+        tags.append('wire-hop-compared')
     if cfg['ehlo500']:
         tags.append('helo-fallback')
     if any(not all(ord(ch) < 128 for ch in s['sender'] + ''.join(s['rcpts'])) for s in sent):
         tags.append('utf8-address')
+    if any(len(set(s['rcpts'])) < len(s['rcpts']) for s in sent):
+        tags.append('duplicate-recipient')
     if any('"' in s['sender'] + ''.join(s['rcpts']) for s in sent):
         tags.append('quoted-local-part')
     key = ('hop', tr, repr(sorted(cfg.items())), repr(case['msgs']))
